@@ -142,6 +142,7 @@ func ruleKeyEmulationTemplate(c *Ctx, dv *dev) {
 		}
 	}
 	posID, negID := "", ""
+	var posT, negT *Term
 	// identify identifiers by the note field they are paired with
 	for _, p := range paths {
 		if sel, _ := mappingTypeOf(p); sel != keySim {
@@ -151,9 +152,9 @@ func ruleKeyEmulationTemplate(c *Ctx, dv *dev) {
 			if e.Kind == "call" && e.Callee == on && len(e.Args) >= 4 {
 				switch {
 				case analogField(e.Args[2], "Note"):
-					posID = e.Args[1].String()
+					posID, posT = e.Args[1].String(), e.Args[1]
 				case analogField(e.Args[2], "NoteNeg"):
-					negID = e.Args[1].String()
+					negID, negT = e.Args[1].String(), e.Args[1]
 				}
 			}
 		}
@@ -163,6 +164,23 @@ func ruleKeyEmulationTemplate(c *Ctx, dv *dev) {
 	}
 	c.Check(posID != negID, "R8.1", "device.handleABSEvent/key/distinct-identifiers", pos, "identifiers of the two directions differ: "+posID+" vs "+negID,
 		"both directions use the same tracker identifier: they would overwrite each other's entry")
+	// the identifiers name the axis as the mapping does (sub-handler and code), injectively, and the two directions never coincide
+	{
+		pi, ni := identOf(posT), identOf(negT)
+		need := dv.mappingKeyNeed("handleABSEvent", "Analog")
+		bad := ""
+		for _, id := range []keyIdent{pi, ni} {
+			if miss, ok := id.covers(need); !ok {
+				bad = fmt.Sprintf("the tracker identifier %s omits %s, which the mapping lookup uses to tell axes apart: two axes that differ only in it (the sticks and the touchpad of one gamepad both report ABS_X) share one tracker entry and one of their notes is never started or never released", id.canon, miss)
+			} else if !id.injective {
+				bad = "the tracker identifier " + id.canon + " is not an injective function of the axis' identity: " + id.why
+			}
+		}
+		if bad == "" && !disjointKeys(pi, ni) {
+			bad = "the identifiers of the two directions (" + pi.canon + ", " + ni.canon + ") are not provably different for every pair of axes"
+		}
+		c.Check(bad == "", "R8.1", "device.handleABSEvent/key/identifier-names-the-axis", pos, "identifiers "+pi.canon+" / "+ni.canon+" determine (sub-handler, code, direction)", bad)
+	}
 	sawBidirGuard := false
 	for _, p := range paths {
 		if sel, _ := mappingTypeOf(p); sel != keySim || p.End != "return" {
